@@ -33,6 +33,14 @@ if TYPE_CHECKING:
     from .integration_events.station_keeping import StationKeeper
 
 
+_RESTART_STEP = 2.0e-15
+"""``float``: smallest time increment after a terminal event, sec.
+
+Event functions report a root within ``fpe_equals()`` (1e-15) of their time; below ~8 sec (and at 0 sec, where
+``spacing()`` is 5e-324) one ulp is not enough to leave that band and the event would trigger again.
+"""
+
+
 class EarthCollisionError(Exception):
     """Exception raised if a :class:`.Celestial` object crashes into the Earth."""
 
@@ -207,7 +215,7 @@ class Celestial(Dynamics, metaclass=ABCMeta):
             )
 
             # Retrieve final time, this should auto-exit the loop if fully-integrated
-            initial_time = solution.t[-1] + spacing(solution.t[-1])
+            initial_time = solution.t[-1] + max(spacing(solution.t[-1]), _RESTART_STEP)
 
         # Return final state from the solver
         return (
@@ -325,13 +333,16 @@ class Celestial(Dynamics, metaclass=ABCMeta):
             # [NOTE]: Need to increment time a tiny bit, so events don't re-trigger.
             # This also protects events that occur on a timestep. The event is applied
             # at the end of the previous timestep, rather than the beginning of current
-            current_time += spacing(current_time)
+            current_time += max(spacing(current_time), _RESTART_STEP)
 
             # Save states to output variable, checks for case where event occurs before times[1]
             final_states[..., num_times : num_times + n_t] = states
             # Update information for next loop
             times = times[n_t:]
             num_times += n_t
+            # Never restart beyond a requested time that is still pending
+            if len(times) > 0 and current_time > times[0]:
+                current_time = times[0]
 
         # Return final state from the solver
         return final_states[..., 1:]
